@@ -64,6 +64,7 @@ type World struct {
 	lockTags   []string
 	relyTags   map[string][]string
 	lockRelies map[string][]LockRely
+	lockInvs   map[string]LockInv
 	deterministicIface map[string]bool
 }
 
@@ -72,7 +73,7 @@ const contractsFile = "zz_contracts_verif.go"
 // Load type-checks the packages with the ghost overlay and builds SSA.
 func Load(repo string, pkgPatterns []string, contractsMirror string) (*World, error) {
 	w := &World{repo: repo, spkgs: map[string]*ssa.Package{}, scope: map[string]bool{}, contracts: map[*ssa.Function]*LoadedContract{},
-		byName: map[string]*LoadedContract{}, lemmas: map[string]*LoadedLemma{}, relies: map[string]string{}, guards: map[string]string{}, lockRelies: map[string][]LockRely{},
+		byName: map[string]*LoadedContract{}, lemmas: map[string]*LoadedLemma{}, relies: map[string]string{}, guards: map[string]string{}, lockRelies: map[string][]LockRely{}, lockInvs: map[string]LockInv{},
 		frames: map[*ssa.Function]*frameInfo{}, frameBusy: map[*ssa.Function]bool{}, implCache: map[string][]implInfo{}, spawnIDs: map[string]int{},
 		cloTab: map[*Exec]map[string]*Closure{}, ignoreContracts: map[*ssa.Function]bool{}, deterministicIface: map[string]bool{}}
 	overlay := map[string][]byte{}
@@ -146,6 +147,9 @@ func Load(repo string, pkgPatterns []string, contractsMirror string) (*World, er
 		}
 		for k, v := range sf.Guards {
 			w.guards[k] = v
+		}
+		for _, li := range sf.LockInvs {
+			w.lockInvs[li.Lock] = li
 		}
 		for _, lr := range sf.LockRelies {
 			w.lockRelies[lr.Lock] = append(w.lockRelies[lr.Lock], lr)
